@@ -702,6 +702,30 @@ func main() {
 		}
 		b.WriteString("},\n")
 	}
+	b.WriteString("}\n\nvar SiteLine = []int32{")
+	fileIdx := map[string]int{}
+	var fileNames []string
+	for i, s := range sites {
+		if i%32 == 0 {
+			b.WriteString("\n\t")
+		}
+		fmt.Fprintf(&b, "%d,", s.Line)
+		if _, ok := fileIdx[s.File]; !ok {
+			fileIdx[s.File] = len(fileNames)
+			fileNames = append(fileNames, s.File)
+		}
+	}
+	b.WriteString("\n}\n\nvar SiteFile = []int16{")
+	for i, s := range sites {
+		if i%32 == 0 {
+			b.WriteString("\n\t")
+		}
+		fmt.Fprintf(&b, "%d,", fileIdx[s.File])
+	}
+	b.WriteString("\n}\n\nvar FileNames = []string{\n")
+	for _, f := range fileNames {
+		fmt.Fprintf(&b, "\t%q,\n", f)
+	}
 	b.WriteString("}\n\nvar FuncNames = []string{\n")
 	for _, f := range funcNames {
 		fmt.Fprintf(&b, "\t%q,\n", f)
